@@ -19,7 +19,7 @@ func init() {
 			"(O1) listener.Shutdown: on the non-upgrade branch the listener is closed before the drain callback, on the upgrade branch accepting is stopped before it and the listening socket is NOT closed (the new process owns it); " +
 			"(O2) activeListener.OnShutdown notifies every connection (OnShutdown event) and then waits in waitConnectionsClose(drainTime) on every path; the wait loop re-reads the active-stream gauge and is bounded by the elapsed time; " +
 			"(O3) StageManager.Stop runs the graceful-stop stage (app.Shutdown, then the registered hooks) before app.Close whenever the action is GracefulStop or Upgrade, and Close before the after-stop stage; " +
-			"(O4) connection.startReadLoop hands a connection over (transfer) only after the stop signal and the transfer deadline, asks the transfer callback once, and transfer() passes the connection (with its read buffer) to transferRead before transferWrite. (O5) connection.readBuffer is never reset to nil (or transferReadSendData tolerates nil) and transferRead sends that buffer. (O6) MServerConn.goAway writes maxClientStreamID as last-stream-id on every path, is idempotent, and processHeaders creates no stream while inGoAway. (O7) path-sensitively over inGoAway and StreamID > maxClientStreamID: no feasible path in HandleFrame reaches a process* handler with both possibly true. (O8) no invoke of Close on an api.Connection is statically reachable from any server-side GoAway() in pkg/stream/{http,http2,xprotocol}.",
+			"(O4) connection.startReadLoop hands a connection over (transfer) only after the stop signal and the transfer deadline, asks the transfer callback once, and transfer() passes the connection (with its read buffer) to transferRead before transferWrite. (O5) connection.readBuffer is never reset to nil (or transferReadSendData tolerates nil) and transferRead sends that buffer. (O6) MServerConn.goAway writes maxClientStreamID as last-stream-id on every path, is idempotent, and processHeaders creates no stream while inGoAway. (O7) path-sensitively over inGoAway and StreamID > maxClientStreamID: no feasible path in HandleFrame reaches a process* handler with both possibly true. (O8) no invoke of Close on an api.Connection is statically reachable from any server-side GoAway() in pkg/stream/{http,http2,xprotocol}. (O9) every access to connection.needTransfer, plain or atomic, lies on the success edge of tryMutex.TryLock with no non-deferred Unlock in between.",
 		Run: runC11,
 	})
 }
@@ -38,6 +38,8 @@ func runC11(c *Ctx) {
 	defer c11RefusedStreams(c)
 	c.Rule("C11.O8", "the shutdown notification (GoAway) of a server stream connection never closes the connection", 2)
 	defer c11ShutdownNeverCloses(c)
+	c.Rule("C11.O9", "the hand-over flag of a connection is raised and read only under the write lock: the hand-over waits for a response in progress", 2)
+	defer c11TransferFlagUnderWriteLock(c)
 	c.NotDecided = append(c.NotDecided, "that no request on a new, handed-over or in-flight connection fails around SIGTERM/SIGHUP (cross-process, kernel and timing dependent)", "fd passing over the unix socket, inheritance of listeners by the new process", "HTTP/2 GOAWAY and keep-alive draining")
 
 	named := func(n string) func(cc *ssa.CallCommon) bool {
@@ -553,5 +555,79 @@ func c11ShutdownNeverCloses(c *Ctx) {
 	}
 	if n < 2 {
 		c.Unresolved("C11.O8", fmt.Sprintf("server-side GoAway implementations (found %d)", n))
+	}
+}
+
+// c11TransferFlagUnderWriteLock (O9): the hand-over of a connection waits for the write in progress.
+// In direct-write mode a response is written by the calling goroutine under connection.tryMutex. The read loop announces
+// the hand-over by raising needTransfer *while holding that mutex*: taking it is what makes the hand-over wait for a
+// half-written response, and reading the flag under it is what makes every later writer queue its buffers for the
+// transfer instead of touching the socket and c.writeBuffers. Clause: every access to connection.needTransfer happens on
+// the success edge of tryMutex.TryLock with no Unlock in between.
+func c11TransferFlagUnderWriteLock(c *Ctx) {
+	pkg := "pkg/network"
+	n := 0
+	ord := ordCounter{}
+	isMutexCall := func(x ssa.Instruction, name string) bool {
+		ci, ok := x.(ssa.CallInstruction)
+		if !ok || methodName(ci.Common()) != name {
+			return false
+		}
+		rv := recvOf(ci.Common())
+		if rv == nil {
+			return false
+		}
+		_, f, _, okf := loadedField(rv)
+		return okf && f == "tryMutex"
+	}
+	held := func(in ssa.Instruction) bool {
+		for _, g := range guardsAt(in.Block()) {
+			call, ok := g.Cond.(*ssa.Call)
+			if !ok || !g.True || !isMutexCall(call, "TryLock") {
+				continue
+			}
+			// no plain (non-deferred) Unlock between the lock and the access
+			unlocked := false
+			fn := in.Parent()
+			for _, b := range fn.Blocks {
+				for _, y := range b.Instrs {
+					if _, isD := y.(*ssa.Defer); isD || !isMutexCall(y, "Unlock") {
+						continue
+					}
+					y := y
+					if existsPath(fn, call, func(z ssa.Instruction) bool { return z == y }, nil) != nil &&
+						existsPath(fn, y, func(z ssa.Instruction) bool { return z == in }, func(z ssa.Instruction) bool { return z == ssa.Instruction(call) }) != nil {
+						unlocked = true
+					}
+				}
+			}
+			if !unlocked {
+				return true
+			}
+		}
+		return false
+	}
+	for _, fn := range c.PkgFuncs(pkg) {
+		forEachInstr(fn, false, func(f *ssa.Function, in ssa.Instruction) {
+			fa, ok := in.(*ssa.FieldAddr)
+			if !ok {
+				return
+			}
+			tn, fld, _, okf := fieldAddrInfo(fa)
+			if !okf || fld != "needTransfer" || !strings.HasSuffix(tn, "pkg/network.connection") {
+				return
+			}
+			for _, r := range refs(fa) {
+				if _, isDbg := r.(*ssa.DebugRef); isDbg {
+					continue
+				}
+				n++
+				key := ord.next(f, "transfer-flag-under-write-lock")
+				c.Check("C11.O9", key, r.Pos(), held(r), "accessed on the success edge of tryMutex.TryLock", "connection.needTransfer is accessed in "+f.Name()+" without the write lock (tryMutex) held: the hand-over no longer waits for a response that is being written, and a later writer can bypass the lock - the half-written response is sent again by the new process and interleaved on the socket")
+			}
+		})
+	}
+	if n < 2 {
+		c.Unresolved("C11.O9", "accesses to connection.needTransfer (expected notifyTransfer and writeDirectly)")
 	}
 }
